@@ -138,6 +138,15 @@ FACTS = {
             (["paths", "/swapped", "get", "responses", "404", "content", "application/json", "schema", "properties", "second", "type"], "boolean"),
         ],
     },
+    # one rec, instantiated twice inside one other application: two schemas, each under its own name
+    "a-rec-instantiated-twice-inside-another-application": {
+        "files": {"main.oal": "let node x = rec y { 'value x, 'next [y] };\nlet pair a b = { 'left (node a), 'right (node b) };\nres /pairs on get -> <pair int str>;\n"},
+        "facts": [
+            (["components", "schemas"], ("count", 2)),
+            (["paths", "/pairs", "get", "responses", "default", "content", "application/json", "schema", "properties", "left"], ("refers_to_schema_with_property_type", ("value", "integer"))),
+            (["paths", "/pairs", "get", "responses", "default", "content", "application/json", "schema", "properties", "right"], ("refers_to_schema_with_property_type", ("value", "string"))),
+        ],
+    },
     "explicit-references-to-atomic-schemas": {
         "files": {"main.oal": "let @id = int `minimum: 1`;\nlet @code = str `pattern: \"[A-Z]+\"`;\nlet @self = /items/{ 'id @id };\nlet @item = { 'id! @id, 'code @code, 'self @self };\nres /items on get -> <[@item]>;\n"},
         "facts": [
@@ -704,6 +713,15 @@ def check():
         o.inconc(str(exn)[:120])
 
     uri_append_lemmas(o, L, S, MC, E, structural, on_sat)
+
+    # every instantiation of a rec gets a name of its own - two schemas under one name means one of them is not in the document
+    # (naming lemmas shared with C09)
+    try:
+        import props.c09 as c09
+        c09.naming_lemmas(o, L, S, MC, E, (MC.one(r"^(eval::)?eval_recursion$"), MC.one(r"^eval::<impl[^>]*>::node_identifier$"), MC.one(r"^eval::<impl[^>]*>::push_scope$"),
+                                          MC.sel("eval", "new", ret=r"eval::Context")), structural, on_sat)
+    except KeyError as exn:
+        o.inconc(str(exn)[:120])
 
     # a declared reference is in the document: whatever reference_schema points at, all_components registers (shared with C03)
     try:
